@@ -18,12 +18,15 @@ import (
 	"context"
 	"encoding/json"
 	"fmt"
+	"io"
+	"log"
 	"os"
 	"path"
 	"path/filepath"
 	"sort"
 	"strings"
 	"sync"
+	"time"
 
 	rbundle "github.com/styrainc/regal/bundle"
 	"github.com/styrainc/regal/pkg/config"
@@ -526,8 +529,10 @@ type ComposeCase struct {
 	MinWS      *probe.Workspace `json:"min_ws,omitempty"`
 	// sized workspaces: the files for which the lint query was tabulated (Ops) and which were linted alone up front;
 	// nil = every file of the workspace
-	Probed []string `json:"probed,omitempty"`
-	Sized  int      `json:"sized,omitempty"` // number of files of a size-boundary workspace
+	Probed  []string `json:"probed,omitempty"`
+	Sized   int      `json:"sized,omitempty"` // number of files of a size-boundary workspace
+	Opts    []string `json:"opts,omitempty"`  // linter options switched on for every run of the case
+	Seconds float64  `json:"seconds"`         // wall time of the case (evidence only)
 }
 
 func lintSubset(ctx context.Context, ws probe.Workspace, root string, files []string) (SubsetRun, *SumCase) {
@@ -838,12 +843,37 @@ func (rn *runner) runCompose(ctx context.Context, rng *hutil.Rng, id int, ws pro
 			}
 		}
 	}
+	// a workspace that asks for repetitions (replay of a size-boundary workspace; options that make the evaluation
+	// of the files of one run share state): the whole set again, every file compared with its alone run each time
+	for rep := 1; rep < ws.Repeat && !probeOnly && n > 1 && cc.Diff == nil; rep++ {
+		r, sm := rn.lint(ctx, ws, root, names)
+		if sm != nil {
+			cc.Summaries = append(cc.Summaries, sm)
+		}
+		if r.Err != "" {
+			cc.Mismatch = append(cc.Mismatch, fmt.Sprintf("lint of %v failed: %s", r.Files, r.Err))
+			continue
+		}
+		for _, f := range r.Files {
+			single := byKey[subsetKey([]string{f})]
+			if single.Err == "" && !sameKeys(r.PerFile[f], single.PerFile[f]) {
+				a, _ := json.Marshal(r.PerFile[f])
+				b, _ := json.Marshal(single.PerFile[f])
+				cc.Mismatch = append(cc.Mismatch, fmt.Sprintf("file %s: in repetition %d of the run over all %d files: %s; alone: %s", f, rep, len(r.Files), a, b))
+				if cc.Diff == nil {
+					cc.Diff = &Diff{File: f, Block: r.Files, InBlock: r.PerFile[f], Alone: single.PerFile[f],
+						Rules: rulesDiffering(r.PerFile[f], single.PerFile[f]), From: r.Files}
+				}
+			}
+		}
+	}
 	if cc.Diff != nil {
 		keep := map[string]bool{}
 		for _, f := range cc.Diff.Block {
 			keep[f] = true
 		}
-		m := probe.Workspace{ID: ws.ID, Config: ws.Config, Custom: ws.Custom}
+		m := ws // every field (configuration, linter options, repeat count) but the files
+		m.Files = nil
 		for _, f := range ws.Files {
 			if keep[f.Name] {
 				m.Files = append(m.Files, f)
@@ -924,9 +954,21 @@ func countPrefix(keys []string, prefix string) int {
 // files alone up front (first and last in name order, one by the seed) and any file alone whose verdicts differ
 // between two runs.  Per file: the known violation is there exactly once in every run, the violations are the same in
 // every run the file takes part in, and equal to the alone run where there is one.
-func (rn *runner) runSized(ctx context.Context, rng *hutil.Rng, id, n int, conf string) ComposeCase {
+//
+// round 3: opts = optional features of the linter switched on for every run of the workspace (alone runs included);
+// repeats = how often the run over all N files is made; blocks = false leaves the partition out.
+func (rn *runner) runSized(ctx context.Context, rng *hutil.Rng, id, n int, conf string, opts []string, repeats int, blocks bool) ComposeCase {
 	ws, exp := sizedWorkspace(id, n, conf)
-	cc := ComposeCase{Kind: "compose", ID: id, Source: "sized", WS: ws, Mismatch: []string{}, Sized: n}
+	ws.Opts = opts
+	if repeats < 1 {
+		repeats = 1
+	}
+	ws.Repeat = repeats
+	src := "sized"
+	if len(opts) > 0 {
+		src = "sized-opts"
+	}
+	cc := ComposeCase{Kind: "compose", ID: id, Source: src, WS: ws, Mismatch: []string{}, Sized: n, Opts: opts}
 	root := fmt.Sprintf("c%d", id)
 	_ = os.RemoveAll(root)
 	if err := ws.Write(root); err != nil {
@@ -937,8 +979,11 @@ func (rn *runner) runSized(ctx context.Context, rng *hutil.Rng, id, n int, conf 
 		names = append(names, f.Name)
 	}
 	sort.Strings(names)
-	runs := [][]string{names}
-	if n >= 2 {
+	runs := [][]string{}
+	for r := 0; r < repeats; r++ {
+		runs = append(runs, names)
+	}
+	if n >= 2 && blocks {
 		k := 2
 		if n >= 40 {
 			k = 3
@@ -962,13 +1007,22 @@ func (rn *runner) runSized(ctx context.Context, rng *hutil.Rng, id, n int, conf 
 		cc.Partitions = 1
 	}
 	sample := map[string]bool{names[0]: true, names[n-1]: true, names[rng.Below(n)]: true}
+	if len(opts) > 0 && rn.tier == "quick" {
+		sample = map[string]bool{names[rng.Below(n)]: true, names[rng.Below(n)]: true}
+	}
 	for f := range sample {
 		cc.Probed = append(cc.Probed, f)
 	}
 	sort.Strings(cc.Probed)
 	want := map[string][]string{}
-	for _, fs := range runs {
-		want[subsetKey(fs)] = fs
+	runKeys := []string{} // one key per run, repetitions of the same file list get keys of their own
+	for i, fs := range runs {
+		k := subsetKey(fs)
+		if _, dup := want[k]; dup {
+			k = fmt.Sprintf("%s\x01rep%d", k, i)
+		}
+		want[k] = fs
+		runKeys = append(runKeys, k)
 	}
 	for _, f := range cc.Probed {
 		want[subsetKey([]string{f})] = []string{f}
@@ -1019,9 +1073,9 @@ func (rn *runner) runSized(ctx context.Context, rng *hutil.Rng, id, n int, conf 
 	}
 	// the multi-file runs, smallest first
 	var multi []SubsetRun
-	for _, fs := range runs {
+	for i, fs := range runs {
 		if len(fs) > 1 || n == 1 {
-			multi = append(multi, byKey[subsetKey(fs)])
+			multi = append(multi, byKey[runKeys[i]])
 		}
 	}
 	sort.SliceStable(multi, func(a, b int) bool { return len(multi[a].Files) < len(multi[b].Files) })
@@ -1085,7 +1139,8 @@ func (rn *runner) runSized(ctx context.Context, rng *hutil.Rng, id, n int, conf 
 		for _, f := range cc.Diff.Block {
 			keep[f] = true
 		}
-		m := probe.Workspace{ID: ws.ID, Config: ws.Config, Custom: ws.Custom}
+		m := ws // every field (configuration, linter options, repeat count) but the files
+		m.Files = nil
 		for _, f := range ws.Files {
 			if keep[f.Name] {
 				m.Files = append(m.Files, f)
@@ -1204,6 +1259,7 @@ type PoolInfo struct {
 	Offered    int        `json:"offered"`
 	Unparsable []string   `json:"unparsable"`
 	Rules      []RuleInfo `json:"rules"`
+	OptionSets [][]string `json:"option_sets"`
 }
 
 func chunk(fs []probe.File, k int) [][]probe.File {
@@ -1230,6 +1286,49 @@ type job struct {
 	probeOnly bool
 	sized     int    // > 0: a size-boundary workspace of that many files (ws is generated by runSized)
 	conf      string // its configuration
+	opts      []string
+	repeats   int
+	noBlocks  bool
+}
+
+// optionSets: the optional features of the linter that change how the evaluation is set up (not what is linted):
+// every single one, all of them together, and further combinations (quick: a few by the seed; thorough: every pair
+// and more by the seed).  The first set is the all-on combination.
+func optionSets(rng *hutil.Rng, tier string) [][]string {
+	all := append([]string{}, probe.AllOpts...)
+	sets := [][]string{all}
+	for _, o := range all {
+		sets = append(sets, []string{o})
+	}
+	nrand := 3
+	if tier != "quick" {
+		nrand = 24
+		for i := range all {
+			for j := i + 1; j < len(all); j++ {
+				sets = append(sets, []string{all[i], all[j]})
+			}
+		}
+	}
+	seen := map[string]bool{}
+	for _, s := range sets {
+		seen[strings.Join(s, ",")] = true
+	}
+	for tries := 0; nrand > 0 && tries < 200; tries++ {
+		var s []string
+		for _, o := range all {
+			if rng.Below(2) == 0 {
+				s = append(s, o)
+			}
+		}
+		k := strings.Join(s, ",")
+		if len(s) < 2 || seen[k] {
+			continue
+		}
+		seen[k] = true
+		sets = append(sets, s)
+		nrand--
+	}
+	return sets
 }
 
 // poolJobs: the composition workspaces built from the pool
@@ -1326,6 +1425,7 @@ func main() {
 	defer out.Close()
 	ctx := context.Background()
 	rng := hutil.NewRng(hutil.SeedFromEnv())
+	log.SetOutput(io.Discard) // the linter's debug mode logs the merged configuration
 
 	type fixedIn struct {
 		Trees   []TreeCase        `json:"trees"`
@@ -1359,8 +1459,10 @@ func main() {
 			wg.Add(1)
 			go func(i int, j job) {
 				defer wg.Done()
+				t0 := time.Now()
+				defer func() { res[i].Seconds = time.Since(t0).Seconds() }()
 				if j.sized > 0 {
-					res[i] = rn.runSized(ctx, j.rng, j.id, j.sized, j.conf)
+					res[i] = rn.runSized(ctx, j.rng, j.id, j.sized, j.conf, j.opts, j.repeats, !j.noBlocks)
 					return
 				}
 				res[i] = rn.runCompose(ctx, j.rng, j.id, j.ws, j.source, j.probeOnly)
@@ -1424,7 +1526,41 @@ func main() {
 		}
 		jobs = append(jobs, job{id: 3000 + i, source: "sized", rng: hutil.NewRng(sgen.Next()), sized: n, conf: conf})
 	}
-	info := PoolInfo{Kind: "pool", Rules: bundleRules()}
+	// round 3: the same two kinds of workspaces under the optional features of the linter (metrics, instrumentation,
+	// profiling, base cache, print hook, debug mode, exported aggregates, collect query): whatever such a feature
+	// shares between the per-file evaluations of one run must not move a verdict from one file to another
+	ogen := hutil.NewRng(hutil.SeedFromEnv() ^ 0x0b75)
+	osets := optionSets(ogen, tier)
+	oid := 4000
+	for i, set := range osets {
+		ns, reps := []int{33}, 2
+		if i == 0 { // all on
+			ns, reps = []int{33, 65}, 3
+		} else if len(set) > 1 && tier != "quick" {
+			ns = []int{[]int{33, 47, 65}[ogen.Below(3)]}
+		}
+		if tier != "quick" {
+			reps += 2
+			if i == 0 {
+				ns = append(ns, 129, 257)
+			}
+		}
+		for _, n := range ns {
+			jobs = append(jobs, job{id: oid, source: "sized-opts", rng: hutil.NewRng(ogen.Next()), sized: n, conf: "default",
+				opts: set, repeats: reps, noBlocks: tier == "quick" || i != 0})
+			oid++
+		}
+	}
+	osizes := csizes
+	if tier == "quick" {
+		osizes = []int{2, 3, 4, 5}
+	}
+	for i, n := range osizes {
+		ws := probe.GenWorkspace(gen, 100+i, n)
+		ws.Opts = osets[i%len(osets)]
+		jobs = append(jobs, job{id: 100 + i, ws: ws, source: "generated-opts", rng: hutil.NewRng(gen.Next())})
+	}
+	info := PoolInfo{Kind: "pool", Rules: bundleRules(), OptionSets: osets}
 	jobs = append(jobs, poolJobs(hutil.NewRng(hutil.SeedFromEnv()^0x9001), fx.Pool, tier, &info)...)
 	out.Emit(info)
 	runJobs(jobs)
